@@ -863,14 +863,14 @@ def Array(
             try:
                 stream = _as_stream(buffer)
                 if _length is None:
-                    return cls._decode_all(stream)
-
-                if _is_length_type(_length):
-                    _len = _length.decode(stream)
+                    _val = cls._decode_all(stream)
                 else:
-                    _len = _length
+                    if _is_length_type(_length):
+                        _len = _length.decode(stream)
+                    else:
+                        _len = _length
 
-                _val = [cls.element_type.decode(stream) for _ in range(_len)]
+                    _val = [cls.element_type.decode(stream) for _ in range(_len)]
 
                 if issubclass(cls.element_type, BitArrayType):
                     return list(chain.from_iterable(_val))
